@@ -985,16 +985,17 @@ class VerbatimEnvironment(NoCharSubEnvironment):
 
         # Get the name of the currently expanding environment
         name = self.nodeName
-        if self.macroMode != Environment.MODE_NONE:
-            if self.ownerDocument.context.currenvir is not None:
-                name = self.ownerDocument.context.currenvir
+        if self.ownerDocument.context.currenvir is not None:
+            name = self.ownerDocument.context.currenvir
 
-        # If we were invoked by a \begin{...} look for an \end{...}
+        # If we were invoked by a \begin{...} look for an \end{...}; so
+        # does the command form inside the begin code of another environment
+        # (i.e. \newenvironment{foo}{\verbatim}{\endverbatim})
         endpattern = list(r'%send%s%s%s' % (escape, bgroup, name, egroup))
 
         # If we were invoked as a command (i.e. \verbatim) look
         # for an end without groupings (i.e. \endverbatim)
-        endpattern2 = list(r'%send%s' % (escape, name))
+        endpattern2 = list(r'%send%s' % (escape, self.nodeName))
 
         endlength = len(endpattern)
         endlength2 = len(endpattern2)
@@ -1021,7 +1022,7 @@ class VerbatimEnvironment(NoCharSubEnvironment):
                     tokens = tokens[:-endlength2]
                     self.ownerDocument.context.pop(self)
                     # Expand the end of the macro
-                    end = self.ownerDocument.createElement(name)
+                    end = self.ownerDocument.createElement(self.nodeName)
                     end.parentNode = self.parentNode
                     end.macroMode = Environment.MODE_END
                     res = end.invoke(tex)
